@@ -15,6 +15,8 @@ import (
 	"strconv"
 	"strings"
 	"sync"
+	"sync/atomic"
+	"time"
 
 	"github.com/attestantio/dirk/core"
 	"github.com/attestantio/dirk/rules"
@@ -34,6 +36,7 @@ import (
 	standardsigner "github.com/attestantio/dirk/services/signer/standard"
 	localunlocker "github.com/attestantio/dirk/services/unlocker/local"
 	"github.com/attestantio/dirk/testing/daemon"
+	"github.com/attestantio/dirk/util/verifhook"
 	"github.com/herumi/bls-eth-go-binary/bls"
 	"github.com/rs/zerolog"
 	e2types "github.com/wealdtech/go-eth2-types/v2"
@@ -96,6 +99,8 @@ type world struct {
 	lockWrap  func(locker.Service) locker.Service
 	noCache   bool
 	viaGrpc   bool
+	// stallFirstMs: the FIRST state write after the rules service starts (whoever makes it) stalls that long
+	stallFirstMs int
 	trace     []string
 	cops      []cop
 	parks     []*park
@@ -179,6 +184,8 @@ func (w *world) config(f []string) bool {
 		w.noCache = true
 	case "viagrpc":
 		w.viaGrpc = true
+	case "stallfirst":
+		w.stallFirstMs, _ = strconv.Atoi(f[1])
 	case "locktrace":
 		w.enableTrace()
 	case "legacyregex":
@@ -334,6 +341,9 @@ func (w *world) begin() string {
 		return "newfail"
 	}
 	w.checker = chk
+	if w.stallFirstMs > 0 {
+		installStallFirst(w.stallFirstMs)
+	}
 	w.openRules()
 	return "ok"
 }
@@ -492,4 +502,38 @@ func restoreStore(file string, st e2wtypes.Store) bool {
 		}
 	}
 	return true
+}
+
+var (
+	stallInstalled bool
+	stallPrev      verifhook.HandlerFunc
+)
+
+// installStallFirst makes the first state write after this point stall (a slow disk at start-up), whichever goroutine
+// makes it; later writes pass at once.
+func installStallFirst(ms int) {
+	if !stallInstalled {
+		stallPrev = baseHandler
+	}
+	stallInstalled = true
+	prev := stallPrev
+	var first int32
+	baseHandler = func(name string, key []byte) error {
+		if (name == "store.enter" || name == "batchstore.enter") && atomic.CompareAndSwapInt32(&first, 0, 1) {
+			time.Sleep(time.Duration(ms) * time.Millisecond)
+		}
+		if prev != nil {
+			return prev(name, key)
+		}
+		return nil
+	}
+	verifhook.SetHandler(baseHandler)
+}
+
+func removeStallFirst() {
+	if stallInstalled {
+		stallInstalled = false
+		baseHandler = stallPrev
+		verifhook.SetHandler(baseHandler)
+	}
 }
